@@ -62,6 +62,31 @@ checks["C14"] = (MC,
 
 # extra entries are appended by later edits of this file
 EXTRA_CHECKS = {}
+EXTRA_CHECKS["C06"] = (MC,
+    "symbolic execution of the real front-end and both back-ends on a table of typed positions x contexts; the offered "
+    "expression is a variable whose declared type is 8 symbolic bytes (constrained to the 8 type spellings) or a call "
+    "f?() with a symbolic function letter; assertion decided by z3 per path: accepted <=> the symbolic type is one the "
+    "position allows, identically for both targets, no script on error",
+    "trusted: the position table (Go typing rules + README signatures) as the expected verdict; violations are re-run "
+    "natively; outside: positions not in the table, two simultaneously corrupted positions",
+    "SSA symbolic execution with symbolic type lexemes; z3 decides accepted <=> expected per path")
+EXTRA_CHECKS["C07"] = (MC,
+    "symbolic execution of the parser on a 14-slot block-structure template: every (definition slot, use slot) and "
+    "(definition, definition) pair with one-byte symbolic names, every placement of break/continue/return/func, plus "
+    "fixed programs on parameters/function order/fall-off-end; assertion decided by z3 per path: accepted <=> the block "
+    "model says the program is legal for these names",
+    "trusted: the block-visibility model of the template as expected verdict; violations are re-run natively; outside: "
+    "other block structures, names longer than one byte, break inside switch (unspecified)",
+    "SSA symbolic execution with symbolic identifier bytes; z3 decides accepted <=> expected per path")
+EXTRA_CHECKS["C19"] = (MC,
+    "symbolic execution of main.main/parseOptions over os.Args built from option/value menus in both orders with short "
+    "or long flags, one flag spelled by two symbolic bytes, noise options and trailing singletons, on a virtual file "
+    "system with accepted/rejected/invalid inputs and stale outputs; assertions: on normal return exactly D/<stem>.<ext> "
+    "per target equals (for all values of the program's symbolic literal) the library result for a fresh converter; on "
+    "panic no new/changed file for the failing target; input never modified",
+    "trusted: virtual file system and os/filepath models; candidates are re-run with the natively built tsh binary; "
+    "outside: more than 2 (quick) / 3 (thorough) -t options, write failures",
+    "SSA symbolic execution of the command's main with symbolic argument bytes; z3 decides flag spellings and output equality")
 checks.update(EXTRA_CHECKS)
 
 na = {}
